@@ -6,6 +6,7 @@
 //! event API; direct writes are limited to the inputs the loop glue itself
 //! writes, consistent time stamps, and measured quantities (listed per check).
 
+pub mod c02;
 pub mod c06;
 pub mod cc;
 pub mod sel;
@@ -86,6 +87,11 @@ pub enum KEv {
     /// Measured quantities that traffic can drive anywhere.
     SetMeasured { link: usize, bitrate_bps: u64, add_bytes: u64, add_naks: u32 },
     SetWindow { link: usize, window: i32 },
+    /// Direct accounting events with explicit sequence numbers (C02 histories).
+    Register { link: usize, seq: i32 },
+    CumAckSeq { seq: i32 },
+    SrtlaAckSeq { link: usize, seq: i32 },
+    NakSeq { link: usize, seq: i32 },
 }
 
 #[derive(Clone, Debug, Serialize, Deserialize, PartialEq)]
@@ -416,6 +422,42 @@ impl KWorld {
             }
             KEv::SetWindow { link, window } => {
                 self.conns[*link % n].window = (*window).clamp(1000, 60_000);
+            }
+            KEv::Register { link, seq } => {
+                // the production path: queue, then take_batch registers at flush time
+                let c = &mut self.conns[*link % n];
+                let _ = c.queue_data_packet(&Self::data(*seq), Some(*seq as u32), now);
+                let _ = c.take_batch(now);
+            }
+            KEv::CumAckSeq { seq } => {
+                for c in self.conns.iter_mut() {
+                    c.handle_srt_ack(*seq, now);
+                }
+            }
+            KEv::SrtlaAckSeq { link, seq } => {
+                // mirror of process_connection_events: arrival link first, then first other holder
+                let i = *link % n;
+                let classic = self.cfg.classic;
+                let mut found = self.conns[i].handle_srtla_ack_specific(*seq, classic, now);
+                eff.acked.push((i, *seq, found));
+                if !found {
+                    for k in 0..n {
+                        if k != i && self.conns[k].handle_srtla_ack_specific(*seq, classic, now) {
+                            eff.acked.push((k, *seq, true));
+                            found = true;
+                            break;
+                        }
+                    }
+                }
+                let _ = found;
+                for c in self.conns.iter_mut() {
+                    c.handle_srtla_ack_global();
+                }
+            }
+            KEv::NakSeq { link, seq } => {
+                let i = *link % n;
+                let found = self.conns[i].handle_nak(*seq, now);
+                eff.naked.push((i, *seq, found));
             }
         }
         eff
